@@ -652,6 +652,306 @@ def llc_run_nested(sx, role, depth):
 
 
 # ----------------------------------------------------------------------------
+# (5) SNEP server / client, handover server over the socket model
+# ----------------------------------------------------------------------------
+import ndef as real_ndef
+import nfc.snep
+import nfc.snep.client
+import nfc.snep.server
+import nfc.handover.server
+from env.sockpair import Link, FakeLLC, Deadlock
+
+SNEP_STRERR = dict(nfc.snep.client.SnepError.strerr)
+
+
+class Rec(object):
+    def __init__(self, type):
+        self.type = type
+
+
+class NdefChoice(object):
+    """module attribute `ndef` of the server modules: whether octets of the
+    peer decode is the environment's choice (drawn per call); encoding of
+    what the local application answers is ndeflib's"""
+    DecodeError = real_ndef.DecodeError
+    EncodeError = real_ndef.EncodeError
+    HandoverSelectRecord = real_ndef.HandoverSelectRecord
+
+    def __init__(self, sx, outcomes):
+        self.sx, self.outcomes, self.k = sx, outcomes, 0
+
+    def message_decoder(self, octets, *args, **kwargs):
+        self.k += 1
+        what = self.sx.pick("ndef.decode#%d" % self.k, self.outcomes)
+        if what == "DecodeError":
+            raise real_ndef.DecodeError("malformed")
+        return [Rec(what)]
+
+    def message_encoder(self, records, *args, **kwargs):
+        recs = [r for r in records if not isinstance(r, Rec)]
+        out = [b"\xd0\x00\x00" for r in records if isinstance(r, Rec)]
+        return out + list(real_ndef.message_encoder(recs))
+
+
+class GetServer(nfc.snep.server.SnepServer):
+    def process_get_request(self, ndef_message):
+        return ndef_message
+
+
+def socket_world(sx, miu_c2s, miu_s2c):
+    link = Link(miu_c2s, miu_s2c)
+    listen = nfc.llcp.Socket(FakeLLC(link, 's'), nfc.llcp.DATA_LINK_CONNECTION)
+    listen.bind("urn:nfc:sn:snep")
+    conn = listen.accept()
+    cs = nfc.llcp.Socket(FakeLLC(link, 'c'), nfc.llcp.DATA_LINK_CONNECTION)
+    return link, conn, cs
+
+
+def drive(sx, entry, link, body):
+    """run the client-stack function body(); exceptions of the server stack
+    surface here too"""
+    try:
+        try:
+            st, r = guarded(sx, entry, (), body)
+        except Deadlock:
+            sx.check(False, "deadlock:" + entry)
+    finally:
+        link.abort()
+    return r
+
+
+def snep_serve(sx, lens, miu_s2c, max_len):
+    """SnepServer._serve with the peer sending arbitrary fragments and then
+    closing the connection"""
+    nfc.snep.server.ndef = NdefChoice(sx, ["rec", "DecodeError"])
+    link, conn, cs = socket_world(sx, 2175, miu_s2c)
+    ml = sx.int("srv.max", 0, 0x20) if max_len == "sym" else 0x100000
+    server = GetServer(FakeLLC(link, 's'), max_acceptable_length=ml)
+    link.start_server(lambda: server._serve(conn))
+    frags = [sx.bytes("m%d" % i, n) for i, n in enumerate(lens)]
+
+    def body():
+        cs.connect("urn:nfc:sn:snep")
+        for f in frags:
+            cs.send(f)
+        cs.close()
+        link.finish()
+    drive(sx, "snep.server._serve", link, body)
+    sx.check(link.nclose['s'] == 1, "socket-not-closed:snep.server._serve")
+    sx.reach("snep:server-returned")
+    return [len(m) for m in link.sent['s']]
+
+
+def snep_client(sx, op, lens, end, accept):
+    """SnepClient.put_octets / get_octets (send_request, recv_response) with a
+    server that answers with arbitrary fragments"""
+    nfc.snep.client.SnepError.strerr = envp.SymKeyDict(sx, SNEP_STRERR)
+    link, conn, cs = socket_world(sx, 128, 128)
+    frags = [sx.bytes("m%d" % i, n) for i, n in enumerate(lens)]
+
+    def peer():
+        conn.recv()
+        for f in frags:
+            conn.send(f)
+        if end == "silent":
+            while conn.recv() is not None:
+                pass
+        conn.close()
+    link.start_server(peer)
+    client = nfc.snep.client.SnepClient(FakeLLC(link, 'c'))
+    if accept == "sym":
+        client.acceptable_length = sx.int("cli.accept", 0, 16)
+    allowed = (nfc.snep.client.SnepError, nfc.llcp.Error)
+    res = []
+
+    def body():
+        if op == "put":
+            res.append(guarded(sx, "snep.client.put_octets", allowed,
+                               client.put_octets, b"\xd0\x00\x00", 0.5))
+        else:
+            res.append(guarded(sx, "snep.client.get_octets", allowed,
+                               client.get_octets, b"\xd0\x00\x00", 0.5))
+        link.finish()
+    drive(sx, "snep.client", link, body)
+    st, r = res[0]
+    sx.reach("snep:client-" + ("returned" if st == 'ok' else "error"))
+    sx.check(client.socket is None, "socket-not-closed:snep.client")
+    return [st, r if st == 'exc' else (None if r is None else (r if isinstance(r, bool) else len(r)))]
+
+
+def handover_serve(sx, lens, miu_s2c):
+    nfc.handover.server.ndef = NdefChoice(sx, ["urn:nfc:wkt:Hr", "other", "DecodeError"])
+    link, conn, cs = socket_world(sx, 2175, miu_s2c)
+    server = nfc.handover.server.HandoverServer(FakeLLC(link, 's'))
+    link.start_server(lambda: server.serve(conn))
+    frags = [sx.bytes("m%d" % i, n) for i, n in enumerate(lens)]
+
+    def body():
+        cs.connect("urn:nfc:sn:handover")
+        for f in frags:
+            cs.send(f)
+        cs.close()
+        link.finish()
+    drive(sx, "handover.server.serve", link, body)
+    sx.check(link.nclose['s'] == 1, "socket-not-closed:handover.server.serve")
+    sx.reach("handover:server-returned")
+    return [len(m) for m in link.sent['s']]
+
+
+# ----------------------------------------------------------------------------
+# (6) ContactlessFrontend.connect() around it, with a scripted driver
+# ----------------------------------------------------------------------------
+from env.recdevice import (RecDevice, Trace, PeerEnv, ReaderEnv, HarnessLimit,
+                           make_frontend)
+
+
+class FuzzPeer(PeerEnv):
+    """PeerEnv whose LLCP parameters (general bytes) and LLC frames are given
+    by the harness: the frames are carried in well-formed NFC-DEP INF PDUs;
+    afterwards the peer is silent"""
+
+    def __init__(self, sx, trace, role, gb, frames):
+        PeerEnv.__init__(self, sx, trace, role, max_symm=0, ends=("timeout",))
+        self.gb = list(gb)
+        self.frames = list(frames)
+
+    def listen(self, kind, target, timeout):
+        t = PeerEnv.listen(self, kind, target, timeout)
+        if t is not None:
+            if not self.frames:
+                return None
+            t.dep_req = self.sx.mkbytes([0xD4, 0x06, 0x00] + list(self.frames.pop(0)))
+        return t
+
+    def rsp(self, target, data, timeout):
+        if self.active is None or target is not self.active or data is None \
+                or not self.frames:
+            self.left = True
+            raise nfc.clf.TimeoutError("peer silent")
+        self.pni = (self.pni + 1) & 3
+        f = list(self.frames.pop(0))
+        return self.sx.mkbytes([len(f) + 4, 0xD4, 0x06, self.pni] + f)
+
+    def cmd(self, target, data, timeout):
+        if self.active is not None and target is self.active and not self.left \
+                and len(data) > 3 and data[1] == 0xD4 and data[2] == 0x06 \
+                and data[3] & 0xE0 == 0x00:
+            if not self.frames:
+                self.left = True
+                raise nfc.clf.TimeoutError("peer silent")
+            f = list(self.frames.pop(0))
+            return self.sx.mkbytes([len(f) + 4, 0xD5, 0x07, data[3] & 3] + f)
+        return PeerEnv.cmd(self, target, data, timeout)
+
+
+def poller(K):
+    n = [0]
+
+    def terminate():
+        n[0] += 1
+        return n[0] > K
+    return terminate
+
+
+def connect_llcp(sx, role, shape, where, n):
+    """clf.connect(llcp=...) with a peer whose general bytes (shape) or whose
+    first LLC frame (n symbolic bytes to SAP `where`) are arbitrary"""
+    tr = Trace()
+    if shape == "ok":
+        gb = GB_OK
+        frame = sx.bytes("f", n)
+        fix_dsap(sx, frame, ADDR[where])
+        frames = [frame, SYMM, SYMM]
+    else:
+        gb = general_bytes(sx, shape) or []
+        frames = [SYMM, SYMM]
+    env = FuzzPeer(sx, tr, "target" if role == "initiator" else "initiator", gb, frames)
+    dev = RecDevice(sx, env, tr)
+    clf = make_frontend(dev)
+    seen = []
+
+    def on_startup(llc):
+        llc.snl = envp.SymKeyDict(sx, llc.snl)
+        llc.sap[1].sent = envp.SymKeyDict(sx, llc.sap[1].sent)
+        return llc
+
+    def on_connect(llc):
+        seen.append(llc)
+        sap_table(sx, llc)
+        return True
+    entry = "clf.connect:llcp"
+    try:
+        st, r = guarded(sx, entry, (), clf.connect, terminate=poller(40), llcp={
+            'role': role, 'sec': False, 'on-startup': on_startup, 'on-connect': on_connect})
+    except HarnessLimit:
+        sx.check(False, "endless-loop:" + entry)
+    if seen:
+        sx.reach("connect:llcp-link-ran")
+        sx.check(r is True, "connect-result-not-true:" + entry)
+        sx.check(seen[0].link.SHUTDOWN, "link-not-shut-down:" + entry)
+    else:
+        sx.reach("connect:llcp-no-link")
+        sx.check(r is None, "connect-result-not-none:" + entry)
+    return [bool(seen), dev.ncalls > 0]
+
+
+class FuzzReader(ReaderEnv):
+    """a remote reader that sends arbitrary Type 3 Tag commands and leaves"""
+
+    def __init__(self, sx, trace, cmds):
+        ReaderEnv.__init__(self, sx, trace)
+        self.cmds = list(cmds)
+
+    def listen(self, kind, target, timeout):
+        if kind != "ttf" or self.left or not self.cmds:
+            return None
+        t = nfc.clf.LocalTarget(
+            "212F", sensf_req=self.sx.mkbytes([0x00, 0xFF, 0xFF, 0x01, 0x00]),
+            sensf_res=self.sx.mkbytes(list(target.sensf_res)))
+        t.tt3_cmd = self.sx.mkbytes(list(self.cmds.pop(0)))
+        self.active = t
+        return t
+
+    def rsp(self, target, data, timeout):
+        if self.active is None or target is not self.active or not self.cmds:
+            self.left = True
+            self.active = None
+            raise nfc.clf.BrokenLinkError("reader left")
+        return self.sx.mkbytes(list(self.cmds.pop(0)))
+
+
+def connect_card(sx, lens):
+    """clf.connect(card=...) as in examples/tagtool.py emulate; first command
+    as listen() reports it (no length byte), then full command frames"""
+    tr = Trace()
+    cmds = [sx.bytes("c%d" % i, n) for i, n in enumerate(lens)]
+    env = FuzzReader(sx, tr, cmds)
+    dev = RecDevice(sx, env, tr)
+    clf = make_frontend(dev)
+    seen = []
+
+    def on_startup(target):
+        target.brty = "212F"
+        target.sensf_res = bytearray([0x01] + IDM + PMM + [0x12, 0xFC])
+        return target
+
+    def on_connect(tag):
+        seen.append(tag)
+        sim, emu = tt3_emulation(sx)
+        tag.services = emu.services
+        return True
+    entry = "clf.connect:card"
+    try:
+        st, r = guarded(sx, entry, (), clf.connect, terminate=poller(12), card={
+            'on-startup': on_startup, 'on-connect': on_connect})
+    except HarnessLimit:
+        sx.check(False, "endless-loop:" + entry)
+    sx.reach("connect:card-returned")
+    sx.check(r is True, "connect-result-not-true:" + entry)
+    return [bool(seen), dev.ncalls]
+
+
+# ----------------------------------------------------------------------------
 def partitions(tier):
     P = []
     quick = tier == "quick"
@@ -776,6 +1076,40 @@ def partitions(tier):
         add("llc-agf:%d" % i, "llc_run_agf", role="Initiator" if i % 2 else "Target", subs=subs)
     for depth in (2, 60, 543):
         add("llc-nested:%d" % depth, "llc_run_nested", role="Target", depth=depth)
+    # (5) snep / handover
+    SL = [[0], [1], [5], [6], [7], [9], [10], [11], [6, 0], [6, 1], [6, 3], [10, 2], [6, 2, 2]]
+    if not quick:
+        SL += [[12], [14], [6, 6], [8, 1, 1], [6, 0, 2], [10, 4, 1]]
+    for lens in SL:
+        for miu, ml in ((128, "big"), (6, "sym")):
+            add("snep-srv:%s:%d" % ("+".join(map(str, lens)), miu), "snep_serve", lens=lens,
+                miu_s2c=miu, max_len=ml)
+    CL = [[], [0], [1], [5], [6], [7], [6, 1], [6, 0], [8, 2], [6, 2, 2]]
+    if not quick:
+        CL += [[9], [12], [6, 6], [7, 1, 1]]
+    for op in ("put", "get"):
+        for lens in CL:
+            for end in ("close", "silent"):
+                add("snep-cli:%s:%s:%s" % (op, "+".join(map(str, lens)) or "-", end),
+                    "snep_client", op=op, lens=lens, end=end,
+                    accept="sym" if op == "get" else "default")
+    for lens in ([0], [1], [3], [2, 2], [0, 1, 0], [1, 1, 1]) + (() if quick else ([4, 4], [1, 1, 1, 1])):
+        for miu in (128, 4):
+            add("ho-srv:%s:%d" % ("+".join(map(str, lens)), miu), "handover_serve",
+                lens=list(lens), miu_s2c=miu)
+    # (6) connect()
+    for role in ("initiator", "target"):
+        for shape in ("none", "raw:6", "ffm:0", "ffm:3", "ffm:4", "tlv:1", "tlv:2", "tlv:3",
+                      "tlv:4", "tlv:7", "tlv:1,2,3,4"):
+            add("connect-llcp:%s:%s" % (role, shape), "connect_llcp", role=role, shape=shape,
+                where="free", n=0)
+        for where in sorted(ADDR):
+            for n in ((2, 3) if quick else (2, 3, 4, 5)):
+                add("connect-llcp:%s:%s:%d" % (role, where, n), "connect_llcp", role=role,
+                    shape="ok", where=where, n=n)
+    for lens in ([1], [5], [9], [5, 0], [5, 1], [5, 6], [9, 10], [5, 2, 6]) + \
+            (() if quick else ([11], [5, 11], [5, 3])):
+        add("connect-card:" + "+".join(map(str, lens)), "connect_card", lens=list(lens))
     # (4) type 3 tag emulation
     for n in range(0, (6 if quick else 8) + 1):
         add("tt3:raw:%d" % n, "tt3_command", shape="raw", n=n)
@@ -803,6 +1137,9 @@ MUST_REACH = ["pdu:decode-error", "pdu:decoded", "pdu:nested-agf-decoded",
               "dep:target-activated", "dep:target-first-request", "dep:target-exchanged",
               "llc:not-activated", "llc:activated", "llc:ran-with-peer-parameters",
               "llc:run-returned",
+              "snep:server-returned", "snep:client-returned", "snep:client-error",
+              "handover:server-returned", "connect:llcp-link-ran", "connect:llcp-no-link",
+              "connect:card-returned",
               "tt3:ignored", "tt3:answered", "tt3:dialog-ended"]
 LIMITS = {"quick": dict(witness_cap=30), "thorough": dict(witness_cap=120)}
 BOUNDS = {"quick": "", "thorough": ""}
